@@ -380,6 +380,19 @@ func fmtItem(it *badger.Item) (string, error) {
 	if err != nil {
 		return "", err
 	}
+	// C06: Item.Value must hand the callback the same bytes as Item.ValueCopy returns, and
+	// ValueCopy into a caller-supplied buffer must return them too
+	var v2 []byte
+	if err := it.Value(func(b []byte) error { v2 = append([]byte{}, b...); return nil }); err != nil {
+		return "", err
+	}
+	v3, err := it.ValueCopy(make([]byte, 3, 40))
+	if err != nil {
+		return "", err
+	}
+	if !bytes.Equal(v, v2) || !bytes.Equal(v, v3) || !bytes.Equal(it.Key(), it.KeyCopy(nil)) {
+		return "", fmt.Errorf("C06-item-api-mismatch Value=%x ValueCopy=%x ValueCopy(buf)=%x", v2, v, v3)
+	}
 	return fmt.Sprintf("%s@%d:%d:%d:%s:%s", hx(it.Key()), it.Version(), it.UserMeta(), it.ExpiresAt(), itemFlags(it), hx(v)), nil
 }
 
@@ -1973,6 +1986,18 @@ func genMvccSession(rng *rand.Rand, st *Stats) []string {
 			}
 			if rng.Intn(40) == 0 {
 				k = pick(rng, []byte{}, []byte("!badger!x"), []byte("!badger!"))
+			}
+			if rng.Intn(500) == 0 {
+				// C28: the key size limit (65000 accepted, 65001 rejected)
+				k = bytes.Repeat([]byte{0x4b}, pick(rng, 64999, 65000, 65001, 65010))
+				k[len(k)-1] = byte(rng.Intn(256))
+				st.Inc("set_key_at_size_limit")
+			}
+			if meta != 1 && rng.Intn(700) == 0 {
+				// C28: the value size limit (ValueLogFileSize = 1 MiB here: that many bytes pass the
+				// validation and then meet the batch limits, one more is rejected outright)
+				v = make([]byte, pick(rng, 1<<20, 1<<20+1))
+				st.Inc("set_value_at_size_limit")
 			}
 			ops = append(ops, fmt.Sprintf("set %d %s %d %d %d %s 0", id, hx(k), meta, um, exp, hx(v)))
 			txnKeys[id] = append(txnKeys[id], string(k))
